@@ -86,7 +86,9 @@ Init ==
     /\ \E n \in SNs : \E o \in Olaps : \E b \in Bmins : \E lm \in LminsOf(n) :
        \E J \in Jdess : \E Kd \in Kdess : \E c \in Cs :
           /\ 2 * b[1] < n * b[2]                                  \* bmin < N/2
-          /\ RPow(RAdd(<<1, 1>>, c), J) = R(n, 2)                  \* (1+c)^Jdes = N/2
+          \* (1+c)^Jdes = N/2 ; J = 0 stands for a real-valued Jdes = log(N/2)/log(1+c) (the scheduler only uses
+          \* Jdes through the log factor), which makes every rational c < 1 available: the log-spaced regime needs 1/c > bmin
+          /\ IF J = 0 THEN RLt(c, <<1, 1>>) ELSE (~RLt(c, <<1, 1>>) /\ RPow(RAdd(<<1, 1>>, c), J) = R(n, 2))
           /\ cfg = [N |-> n, olap |-> o, bmin |-> R(b[1], b[2]), Lmin |-> lm, Jdes |-> J, Kdes |-> Kd, c |-> R(c[1], c[2])]
           /\ fi = (b[1] * FDen) \div b[2]
     /\ pc = "resolve" /\ L = 0 /\ K = 0 /\ bins = <<>> /\ placed = <<>> /\ kmemo = <<>>
@@ -200,6 +202,7 @@ PlanJson == [cfg |-> [N |-> N, olap |-> cfg.olap, bmin |-> cfg.bmin, Lmin |-> cf
              f |-> [j \in 1..Len(placed) |-> placed[j].f],
              L |-> [j \in 1..Len(placed) |-> placed[j].L],
              K |-> [j \in 1..Len(placed) |-> placed[j].K],
-             navg |-> [j \in 1..Len(placed) |-> placed[j].navg]]
+             navg |-> [j \in 1..Len(placed) |-> placed[j].navg],
+             unclamped |-> Cardinality({j \in 1..Len(bins) : Unclamped(j)})]      \* bins on which LogSpaced asserts something
 EmitPlan == (pc = "done" /\ EmitPlans) => PrintT(ToJson(PlanJson))
 =============================================================================
